@@ -121,7 +121,7 @@ func c10InventoryTable() []InvLine {
 		{Fn: c10opSPush, Callee: "os.MkdirAll", Role: "creates the ingest and blobs/<alg> directories"},
 		{Fn: c10opSPush, Callee: "os.CreateTemp", Role: "temporary ingest file, outside blobs/", Required: true},
 		{Fn: c10opSPush, Callee: "os.Chmod", Role: "read-only mode on the ingest file (not needed for crash safety)"},
-		{Fn: c10opSPush, Callee: "(*os.File).Close", Role: "closes the ingest file"},
+		{Fn: c10opSPush, Callee: "(*os.File).Close", Role: "closes the ingest file (close-time write errors surface; required before the rename on Windows)", Required: true},
 		{Fn: c10opSPush, Callee: "os.Remove", Role: "cleanup of the ingest file on failure"},
 		{Fn: c10opSPush, Callee: "os.Rename", Role: "publication: verified ingest file -> blobs/<alg>/<hex>", Required: true},
 		{Fn: c10opSDelete, Callee: "os.Remove", Role: "removal of one blob", Required: true},
@@ -650,6 +650,55 @@ func c10R3StoragePush(c *Ctx, R3 string) {
 		}
 	}
 	c.Check(R3, in+"|verified-file-is-returned-file", ingest.Pos(), okW && okP && n > 0, ifelse(okW && okP && n > 0, "the copy writes into the CreateTemp file, verified against the expected descriptor, and that file's name is returned", "the file written and verified is not the one whose path is returned (or is not verified against the expected descriptor)"))
+	// a pooled buffer is handed back only after its last use: the verifying copy hashes the bytes it read into the
+	// buffer and then writes them from the same buffer — a buffer that is already back in the pool can be overwritten
+	// by a concurrent Push in between, and a file whose bytes do not match its name is published
+	for _, f := range c09FuncsOfPkg(c.P, c08Pkg) {
+		for _, put := range CallsTo(f, "(*sync.Pool).Put") {
+			pc, isCall := put.(*ssa.Call)
+			if !isCall { // deferred: runs when the function is left
+				c.OK(R3, FnName(f)+"|pooled-buffer-released-after-last-use", put.Pos(), "the buffer goes back to the pool in a deferred call, when the function is left")
+				continue
+			}
+			mi, _ := pc.Call.Args[1].(*ssa.MakeInterface)
+			if mi == nil {
+				continue
+			}
+			derived := map[ssa.Value]bool{mi.X: true}
+			for changed := true; changed; {
+				changed = false
+				AllInstrs(f, func(in ssa.Instruction) {
+					v, isVal := in.(ssa.Value)
+					if !isVal || derived[v] {
+						return
+					}
+					switch u := in.(type) {
+					case *ssa.UnOp, *ssa.Slice, *ssa.ChangeType, *ssa.Convert, *ssa.IndexAddr, *ssa.Phi, *ssa.MakeInterface:
+						for _, op := range u.Operands(nil) {
+							if *op != nil && derived[*op] {
+								derived[v], changed = true, true
+							}
+						}
+					}
+				})
+			}
+			okB, at := true, put.Pos()
+			AllInstrs(f, func(in ssa.Instruction) {
+				if in == ssa.Instruction(pc) || !okB {
+					return
+				}
+				for _, op := range in.Operands(nil) {
+					if *op != nil && derived[*op] && reach(pc.Block(), instrIndex(pc)+1, in, nil) {
+						if _, isDbg := in.(*ssa.DebugRef); !isDbg {
+							okB, at = false, in.Pos()
+						}
+					}
+				}
+			})
+			c.Check(R3, FnName(f)+"|pooled-buffer-released-after-last-use", at, okB, ifelse(okB, "the buffer is not used after it went back to the pool",
+				"the buffer is used after it was put back into the pool: a concurrent user of the pool can overwrite it between verification and write, and content that does not match its digest is stored"))
+		}
+	}
 }
 
 func c10R3StorePushTag(c *Ctx, R3 string, r *c08Roles) {
@@ -888,6 +937,14 @@ var c10Mutants = []Mutant{
 		Old:    "\tfp, err := os.CreateTemp(s.ingestRoot, expected.Digest.Encoded()+\"_*\")\n\tif err != nil {",
 		New:    "\tfp, err := os.CreateTemp(s.ingestRoot, expected.Digest.Encoded()+\"_*\")\n\tif false && err != nil {",
 		Expect: "C10.ED.error-surfaces"},
+	// mutation-sweep triage (test-green survivors judged V)
+	{Name: "ingest-buffer-back-to-pool-before-copy", File: "content/oci/storage.go",
+		Old: "\tdefer bufPool.Put(buf)\n", New: "\tbufPool.Put(buf)\n",
+		Expect: "C10.R3.ordering|(*~/content/oci.Storage).ingest|pooled-buffer-released-after-last-use"},
+	{Name: "ingest-file-never-closed", File: "content/oci/storage.go",
+		Old:    "\tdefer func() {\n\t\t// close the temp file and check close error\n\t\tif err := fp.Close(); err != nil && ingestErr == nil {\n\t\t\tingestErr = fmt.Errorf(\"failed to close ingest file: %w\", err)\n\t\t}\n\n\t\t// remove the temp file in case of error\n\t\tif ingestErr != nil {\n\t\t\tos.Remove(path)\n\t\t}\n\t}()\n",
+		New:    "",
+		Expect: "C10.R1.fs-effect-inventory|(*~/content/oci.Storage).Push|(*os.File).Close"},
 	// coverage review (all keep the repository's tests green)
 	{Name: "push-reports-success-when-rename-finds-target", File: "content/oci/storage.go",
 		Old:    "\t\tif errors.Is(err, os.ErrPermission) {\n",
